@@ -9,7 +9,7 @@ struct BbHarness : Harness {
     std::vector<std::string> props() const override { return {"C18"}; }
     std::vector<std::string> probes(const std::string &) const override {
         return {"rewind_partial", "rewind_fully_consumed", "add_exactly_fills", "add_refused", "consume_refused", "consume_at_most_clipped",
-                "invalid_setup_null_memory", "invalid_setup_zero_size", "invalid_setup_used_gt_size", "invalid_setup_offset_gt_used", "count_beyond_any_block", "buffer_of_64k_octets_or_more"};
+                "invalid_setup_null_memory", "invalid_setup_zero_size", "invalid_setup_used_gt_size", "invalid_setup_offset_gt_used", "count_beyond_any_block", "buffer_of_64k_octets_or_more", "buffer_from_static_initialiser"};
     }
     uint64_t runs(const std::string &, const Tier &t) const override { return t.thorough() ? 6000000 : 1500000; }
 
@@ -37,7 +37,7 @@ struct BbHarness : Harness {
         Json p = Json::obj();
         int64_t size = r.chance(3, 4) ? r.range(1, 5) : (t.thorough() ? (r.chance(1, 4) ? r.range(6, 4096) : r.range(6, 64)) : r.range(6, 16));
         if (r.chance(1, t.thorough() ? 500 : 2000)) { static const int64_t BIG[] = {65535, 65536, 65537, 70000}; size = BIG[r.below(4)]; }   // fill and read marks that do not fit 16 bits
-        p["size"] = (long long)size;
+        p["size"] = (long long)size; if (r.chance(1, 3)) p["macro_init"] = 1;
         int64_t used = r.chance(1, 2) ? 0 : r.range(0, size);
         int64_t off = r.chance(1, 2) ? 0 : r.range(0, used);
         p["used"] = (long long)used; p["offset"] = (long long)off;
@@ -84,7 +84,10 @@ struct BbHarness : Harness {
         std::vector<uint8_t> img((size_t)bsize);
         for (size_t i = 0; i < (size_t)u0; ++i) blk.p[i] = nextoctet();
         memcpy(img.data(), blk.p, (size_t)bsize);
-        int rc0 = byte_buffer_set(&b, blk.p, (size_t)bsize, (size_t)u0, (size_t)f0);
+        const bool macro_init = plan.geti("macro_init") != 0;   // objects set up with the header's static initialisers instead of the set-up functions
+        int rc0 = 0;
+        if (macro_init) { b = hm_byte_buffer_init(blk.p, (size_t)bsize, (size_t)u0, (size_t)f0); COUNT("probe.buffer_from_static_initialiser"); }
+        else rc0 = byte_buffer_set(&b, blk.p, (size_t)bsize, (size_t)u0, (size_t)f0);
         if (rc0 != 0) { c.fail("setup", "valid byte_buffer_set refused: %d", rc0); return; }
         // history: octets added / consumed since the last epoch change
         std::vector<uint8_t> added(img.begin(), img.begin() + (long)u0), consumed;
@@ -205,7 +208,9 @@ struct BbHarness : Harness {
                 int64_t s = o.geti("s", 1); if (s < 1) s = 1; if (s > bsize) s = bsize;
                 int64_t u = op == "use" ? s : (op == "space" ? 0 : o.geti("u")); if (u < 0) u = 0; if (u > s) u = s;
                 int64_t f = op == "set" ? o.geti("f") : 0; if (f < 0) f = 0; if (f > u) f = u;
-                int rc = op == "set" ? byte_buffer_set(&b, blk.p, (size_t)s, (size_t)u, (size_t)f)
+                int rc = 0;
+                if (macro_init && (o.geti("s") & 1)) b = op == "set" ? hm_byte_buffer_init(blk.p, (size_t)s, (size_t)u, (size_t)f) : (op == "use" ? hm_byte_buffer(blk.p, (size_t)s) : hm_byte_buffer_empty(blk.p, (size_t)s));
+                else rc = op == "set" ? byte_buffer_set(&b, blk.p, (size_t)s, (size_t)u, (size_t)f)
                        : (op == "use" ? byte_buffer_use(&b, blk.p, (size_t)s) : byte_buffer_space(&b, blk.p, (size_t)s));
                 c.ev(EV_API, 6, (uint64_t)s, (uint64_t)(u * 65536 + f));
                 if (rc != 0) c.fail("result.set", "valid set-up (%lld,%lld,%lld) refused with %d", (long long)s, (long long)u, (long long)f, rc);
